@@ -1,0 +1,28 @@
+//! Off-by-default probe points for external runtime verification.
+//!
+//! Compiled only with the `verif-hooks` cargo feature. A probe is a named
+//! point in the code that calls a process-global callback when one is
+//! installed and does nothing otherwise. The callback may record the event,
+//! delay, block on a gate or terminate the process; the library itself never
+//! changes behaviour because of it.
+
+use std::sync::{Arc, RwLock};
+
+/// Callback type: `(point name, numeric id attached to the event)`.
+pub type ProbeFn = dyn Fn(&'static str, u64) + Send + Sync + 'static;
+
+static PROBE: RwLock<Option<Arc<ProbeFn>>> = RwLock::new(None);
+
+/// Install (or, with `None`, remove) the process-global probe callback.
+pub fn set_probe(cb: Option<Arc<ProbeFn>>) {
+    *PROBE.write().unwrap_or_else(|e| e.into_inner()) = cb;
+}
+
+/// Fire a probe point. No-op unless a callback is installed.
+#[inline]
+pub fn probe(point: &'static str, id: u64) {
+    let cb = PROBE.read().unwrap_or_else(|e| e.into_inner()).clone();
+    if let Some(cb) = cb {
+        cb(point, id);
+    }
+}
